@@ -330,6 +330,47 @@ def rule_cbzero(ctx, rep, rule="R-CBZERO"):
     return n
 
 
+def _releases_param_on_unwind(F, A, key, seen):
+    """Does `key` have an unwinding path (started by user code or a panic a caller can provoke) on which the handle behind one of its
+    `&mut Handle` parameters is released - directly, or by a callee judged the same way - and no pointer is stored afterwards?"""
+    from .props import c03 as _c03
+
+    if key in seen:
+        return True
+    seen = seen | {key}
+    b = F.body(key)
+    if b is None or key in A.errors:
+        return True
+    mparams = {i + 1 for i, t in enumerate(b.get("inputs", [])) if F.ty(t)["k"] == "ref" and F.ty(t)["mut"] and F.tokens(F.ty(t)["t"])[0] > 0}
+    if not mparams:
+        return True  # takes the handle some other way: not judged here
+    Bb = cfg.Body(b)
+    for p in A.paths.get(key, []):
+        if p.exit != "unw" or (p.origin or "std") not in ("user", "panic"):
+            continue
+        for i, e in enumerate(p.events):
+            if vget(e["vec"], "dec") <= 0 or not isinstance(e.get("bb"), int) or e["bb"] >= len(b["blocks"]):
+                continue
+            tt = b["blocks"][e["bb"]]["term"]
+            mine = False
+            if tt["k"] == "drop":
+                mine = "deref" in tt["place"]["p"] and (bool(_c03.root_args(Bb, tt["place"]["l"]) & mparams) or tt["place"]["l"] in mparams)
+            elif tt["k"] == "call":
+                for a in tt["args"]:
+                    pl = operand_place(a)
+                    if pl is not None and (pl["l"] in mparams or _c03.root_args(Bb, pl["l"]) & mparams):
+                        mine = True
+                d = e["detail"] if isinstance(e["detail"], dict) else {}
+                ck = d.get("callee")
+                if mine and d.get("outcome") == "unw" and ck in F.bodies:
+                    mine = _releases_param_on_unwind(F, A, ck, seen)
+            else:
+                mine = True
+            if mine and not any(vget(x["vec"], "retgt") > 0 or x["kind"] == "RETARGET" for x in p.events[i:]):
+                return True
+    return False
+
+
 def rule_release_retarget(ctx, rep, rule="R-RELEASE-RETARGET"):
     """A function that, through a `&mut Handle` parameter, first gives up the handle's reference and then stores a new pointer into
     it (a hand-written `clone_from`, `replace`, ...) must store the new pointer on the unwinding exits too: the release runs a
@@ -360,11 +401,21 @@ def rule_release_retarget(ctx, rep, rule="R-RELEASE-RETARGET"):
                         return False  # a value the function owns itself
                     return bool(_c03.root_args(Bb, tt["place"]["l"]) & mparams) or tt["place"]["l"] in mparams
                 if tt["k"] == "call":
+                    hit = False
                     for a in tt["args"]:
                         pl = operand_place(a)
                         if pl is not None and (pl["l"] in mparams or _c03.root_args(Bb, pl["l"]) & mparams):
-                            return True
-                    return False
+                            hit = True
+                    if not hit:
+                        return False
+                    # a local callee working on the lent handle: the release counts only if the callee itself, on an unwinding
+                    # path of its own, releases the handle behind *its* `&mut` parameter without storing (a callee that merely
+                    # cleans up a fresh block it built - `let fresh = Arc::new(..); assert!(..); *this = fresh` - does not)
+                    d = e["detail"] if isinstance(e["detail"], dict) else {}
+                    ck = d.get("callee")
+                    if d.get("outcome") == "unw" and ck in F.bodies and ck != key:
+                        return _releases_param_on_unwind(F, A, ck, set())
+                    return True
                 return True
 
             # normal paths on which a release (dec) is followed by a retargeting store
@@ -468,7 +519,7 @@ def _count_reader(F, A, key):
     return True
 
 
-def rule_racy_assert(ctx, rep, rule="R-RACY-ASSERT", scope=None):
+def rule_racy_assert(ctx, rep, rule="R-RACY-ASSERT", scope=None, strict=False):
     """An assertion about a *second* reading of the count word. The only thing the holder of a handle knows about the count while
     other threads clone and drop is `count >= 1`. A library assertion (debug or not) that compares a fresh load of the count
     with a constant and can fail for some value >= 1 is therefore reachable in a racing schedule - it is not an
@@ -478,8 +529,16 @@ def rule_racy_assert(ctx, rep, rule="R-RACY-ASSERT", scope=None):
     for tag, F, E in ctx.each():
         A = analysis(tag, F, E)
         only = scope(F) if scope else None
+        uniq = F.handle_paths.get("UniqueArc")
         for b in F.body_list:
-            if not is_api(F, b) or b["key"] in A.errors or (only is not None and b["key"] not in only):
+            if strict:
+                # the strict form (C03, C08, C09: "succeeds if and only if", "gives mutable access", "the very same handle comes
+                # back"): such an assertion anywhere in safe code of the crate - private helpers included - is a panic the
+                # property does not allow, whether or not anything leaks. Not judged: `unsafe fn`s (the count is their caller's
+                # promise) and code working on a UniqueArc (sole owner by type: nobody else can move the count)
+                if b["kind"] not in ("Fn", "AssocFn") or b.get("unsafe") or b["key"] in A.errors or (uniq and any(F.mentions_adt(t, uniq) for t in b.get("inputs", []))):
+                    continue
+            elif not is_api(F, b) or b["key"] in A.errors or (only is not None and b["key"] not in only):
                 continue
             key = b["key"]
             cls, exp = sig_class(F, b)
@@ -487,7 +546,7 @@ def rule_racy_assert(ctx, rep, rule="R-RACY-ASSERT", scope=None):
             B = None
             done = set()
             for p in A.paths[key]:
-                if p.exit != "unw" or (p.origin or "std") not in ("debug-assert", "maypanic"):
+                if p.exit != "unw" or (p.origin or "std") not in (("debug-assert", "maypanic", "panic") if strict else ("debug-assert", "maypanic")):
                     continue
                 ev = p.events
                 ip = next((i for i, e in enumerate(ev) if e["kind"] in ("PANIC", "ASSERT-FAIL")), None)
@@ -525,7 +584,8 @@ def rule_racy_assert(ctx, rep, rule="R-RACY-ASSERT", scope=None):
                 cond = tv != c["neg"]  # truth of `a <op> b` on the panicking side
                 op = c["op"] if ka is None else {"Lt": "Gt", "Le": "Ge", "Gt": "Lt", "Ge": "Le"}.get(c["op"], c["op"])  # normalised to `count <op> k`
                 sat = {"Eq": lambda n_: n_ == k, "Ne": lambda n_: n_ != k, "Lt": lambda n_: n_ < k, "Le": lambda n_: n_ <= k, "Gt": lambda n_: n_ > k, "Ge": lambda n_: n_ >= k}[op]
-                witness = next((n_ for n_ in (1, 2, k - 1, k, k + 1) if n_ >= 1 and sat(n_) == cond), None)
+                imax = (1 << (F.pointer_bits - 1)) - 1  # (the count never passes isize::MAX: C16)
+                witness = next((n_ for n_ in (1, 2, k - 1, k, k + 1) if 1 <= n_ <= imax and sat(n_) == cond), None)
                 ik = "%s/assert-on-count:bb%d" % (key, br["bb"])
                 if ik in done:
                     continue
@@ -537,7 +597,10 @@ def rule_racy_assert(ctx, rep, rule="R-RACY-ASSERT", scope=None):
                 i = imbalance(p.vec) - base
                 open_init = max(vget(p.vec, "init") - vget(p.vec, "make_agg"), 0)
                 i -= min(max(i, 0), open_init)
-                if i != 0:
+                if strict and i == 0:
+                    done.add(ik)
+                    rep.bad(rule, ik, path_report(F, b, p, "this assertion re-reads the count word and fails when it reads %d - which another thread's clone or drop can make it read while this thread holds its handle (all a holder knows is count >= 1): the operation panics in a schedule in which the property says it succeeds or declines" % witness), F.loc(b, t["span"]), tag)
+                elif i != 0:
                     done.add(ik)
                     rep.bad(rule, ik, path_report(F, b, p, "this assertion re-reads the count word and fails when it reads %d - which another thread's clone or drop can make it read while this thread holds its handle (all a holder knows is count >= 1) - and on that unwinding exit %s" % (witness, "a live handle is leaked (parked in ManuallyDrop / forgotten, never released)" if i > 0 else "an owner is released twice")), F.loc(b, t["span"]), tag)
         rep.ok(rule, "assertions on a re-read count(positive control: rule ran)", cfg=tag)
@@ -621,6 +684,68 @@ def rule_write_provenance(ctx, rep, rule="R-PROVENANCE"):
                         rep.bad(rule, ik, "the block pointer stored in this new %s was obtained through a shared reference to the block (line %s): it carries no permission to write, so the count updates, get_mut / DerefMut and the final drop through this handle are undefined behaviour (Stacked/Tree Borrows) although value and count look right" % (hn, sp.get("line")), F.loc(b, s["span"]), tag)
                     else:
                         rep.ok(rule, ik, cfg=tag)
+    return n
+
+
+def _mentions_generic_size(F, e, depth=0):
+    """The expression contains `size_of::<X>()` / `size_of_val` for an X that mentions a type parameter (so it may be zero)."""
+    if not isinstance(e, tuple) or depth > 40:
+        return None
+    if e and e[0] == "call" and e[2] in ("size_of", "size_of_val") and len(e) > 6:
+        for ti in e[6]:
+            if F.mentions_param(ti):
+                return e
+    for x in e:
+        if isinstance(x, tuple):
+            r = _mentions_generic_size(F, x, depth + 1)
+            if r is not None:
+                return r
+    return None
+
+
+def rule_zst_div(ctx, rep, rule="R-ZST-DIV"):
+    """"For every payload size ... including zero-sized": a division or remainder whose divisor is `size_of::<T>()` of a generic
+    payload (a bound such as `len <= isize::MAX / size_of::<T>()`) panics with "attempt to divide by zero" for zero-sized payloads
+    unless it sits behind a test that the size is not zero."""
+    from . import symx
+    from .props import c03 as _c03
+
+    n = 0
+    for tag, F, E in ctx.each():
+        for b in F.body_list:
+            B = None
+            for bi, bl in enumerate(b["blocks"]):
+                for st in bl["stmts"]:
+                    if st["k"] != "assign" or st["rv"]["k"] != "binop" or st["rv"]["op"] not in ("Div", "Rem") or st["span"].get("exp_internal"):
+                        continue
+                    if B is None:
+                        B = cfg.Body(b)
+                    d = symx.expr(F, B, st["rv"]["b"])
+                    sz = d if (isinstance(d, tuple) and d and d[0] == "call" and d[2] in ("size_of", "size_of_val")) else None
+                    if sz is None or _mentions_generic_size(F, sz) is None:
+                        continue
+                    n += 1
+                    ik = "%s/div-by-size:bb%d" % (b["key"], bi)
+                    guarded = False
+                    for sj, bl2 in enumerate(b["blocks"]):
+                        tt = bl2["term"]
+                        if tt["k"] != "switch":
+                            continue
+                        c = B.condition(tt["discr"])
+                        if not c or c.get("op") not in ("Eq", "Ne", "Gt", "Lt", "Ge", "Le"):
+                            continue
+                        x, y = symx.expr(F, B, c["a"]), symx.expr(F, B, c["b"])
+                        szx, k = (x, y) if y[0] == "const" else (y, x)
+                        if k not in (("const", 0), ("const", 1)) or not (szx[0] == "call" and szx[2] in ("size_of", "size_of_val") and szx[4] == sz[4]):
+                            continue
+                        for tgt, tv in B.switch_truth(tt).items():
+                            if not _c03.reachable_without(B, {(sj, tgt)}, set(), bi):
+                                guarded = True  # the division sits behind one edge of a comparison of that size with 0/1
+                    if guarded:
+                        rep.ok(rule, ik, cfg=tag)
+                    else:
+                        rep.bad(rule, ik, "`%s` by `size_of::<%s>()` with no test that the size is not zero on the way: for a zero-sized payload this panics (\"attempt to divide by zero\") on a pointer / length that is perfectly valid" % ("division" if st["rv"]["op"] == "Div" else "remainder", ", ".join(sz[4])), F.loc(b, st["span"]), tag)
+        rep.ok(rule, "divisions by a generic payload size(positive control: rule ran)", cfg=tag)
     return n
 
 
